@@ -286,10 +286,10 @@ def w5_permit_ops(ctx):
             if cn.startswith("tokio::sync::Semaphore::") or cn.startswith("tokio::sync::SemaphorePermit::") or cn.startswith("tokio::sync::OwnedSemaphorePermit::"):
                 m = cn.split("::")[-1]
                 if m in ("acquire", "acquire_many", "try_acquire", "try_acquire_many", "acquire_owned", "try_acquire_owned", "acquire_many_owned", "try_acquire_many_owned"):
-                    good = f == "net::server::Listener::listen" and m == "acquire"
+                    good = in_allowed_family(prog, b, {"net::server::Listener::listen"}) and m == "acquire"
                     r.add(f, "Semaphore::%s" % m, good, where(b, bi), "" if good else "permit taken outside the accept loop (or not exactly one)")
                 elif m == "forget":
-                    r.add(f, "SemaphorePermit::forget", f == "net::server::Listener::listen", where(b, bi))
+                    r.add(f, "SemaphorePermit::forget", in_allowed_family(prog, b, {"net::server::Listener::listen"}), where(b, bi))
                 elif m == "add_permits":
                     n = const_int(arg_origin(b, t, 1))
                     good = b.name == "<net::server::Handler<KV> as std::ops::Drop>::drop" and n == 1
